@@ -309,6 +309,19 @@ def cases(sh):
         t = sh.type_(sh.type1(sh.t2_name("a")), sh.type1(sh.t2_name("b")))
         with_field(t[0][2]["type_choices"][pos], comments_after_type=cm(" after %d" % pos))
         add("Type 2 choices, comments_after_type on #%d" % pos, t)
+        # the same commented type in a nested position: whatever closes the enclosing construct must not land on the comment's line
+        for wrap in ("paren", "tag", "member"):
+            t = sh.type_(sh.type1(sh.t2_name("a")), sh.type1(sh.t2_name("b")))
+            with_field(t[0][2]["type_choices"][pos], comments_after_type=cm(" after %d" % pos))
+            if wrap == "paren":
+                add("ParenthesizedType of Type 2 choices, comments_after_type on #%d" % pos, (b.mk("Type2::ParenthesizedType", pt=t[0]), "(" + t[1] + ")"))
+            elif wrap == "tag":
+                add("TaggedData of Type 2 choices, comments_after_type on #%d" % pos,
+                    (b.mk("Type2::TaggedData", tag=some(("enum", "TagConstraint::Literal", [32])), t=t[0]), "#6.32(" + t[1] + ")"))
+            else:
+                inner = (b.mk("Type2::ParenthesizedType", pt=t[0]), "(" + t[1] + ")")
+                es = [sh.entry_vmk(sh.occ(None), sh.key_bare("k"), sh.type_(sh.type1(inner))), sh.entry_vmk(sh.occ(None), sh.key_bare("other"), sh.type_(sh.type1(sh.t2_name("bool"))))]
+                add("Group with member of parenthesised Type 2 choices, comments_after_type on #%d" % pos, sh.group(es))
         # a comment without text (`;` alone, or followed by blanks only) is still a comment: it runs to the end of its line
         for label, txt in (("empty", ""), ("blank", "  ")):
             t = sh.type_(sh.type1(sh.t2_name("a")), sh.type1(sh.t2_name("b")))
